@@ -203,6 +203,14 @@ func (ex *Exec) builtin(fr *frame, st *State, name string, args []Value, site ss
 		return []*callResult{{G: st.G, H: st.H, Ret: v, Panics: np}}
 	case "print", "println":
 		return ret(nil)
+	case "Sizeof":
+		if t, ok := args[0].(*term.Term); ok {
+			n := t.Sort.W / 8
+			if t.Sort.K == term.KBool {
+				n = 1
+			}
+			return ret(term.Const(64, uint64(n)))
+		}
 	case "min", "max":
 		abort("UNSUPPORTED", "builtin %s", name)
 	}
